@@ -115,6 +115,47 @@ def gen_docs(ctx: Ctx, n: int, **kw):
     return [mdgen.gen_document(rng, quotes=(i % 2 == 0), tags=(i % 5 == 0), html=(i % 3 == 0), **kw) for i in range(n)]
 
 
+BS_HEADS = ["-", "+", "*", "#", "##", "######", "#######", ">", ">x", "1.", "1)", "2.", "10.", "123456789.", "1234567890.", "---", "--", "-", "***",
+            "**", "___", "__", "===", "=", "```", "``", "````", "~~~", "~~", "```a", "~~~a", "x", "a.", "-x", "+1", "#x", "\\-", "1\\.", "|", ":-:",
+            "- -", "* * *", "_ _ _", "<div>", "[x]:"]
+BS_RESTS = [[], ["x"], ["-"], ["---"], ["`a`"], ["x", "y"], ["-", "-"], ["*", "*"]]
+
+
+def monitor_blockstart(ctx: Ctx) -> None:
+    """P-blk: the SPEC `interruptsPara` against two independent readers (Marko as flowmark configures it, markdown-it-py)."""
+    from common import enc_list, run_driver
+    from markdown_it import MarkdownIt
+    mdit = MarkdownIt("commonmark").enable("table").enable("strikethrough")
+    lines = []
+    for h in BS_HEADS:
+        for r in BS_RESTS:
+            ws = h.split(" ") + r
+            lines.append(ws)
+    outs = run_driver([f"interrupts\t{enc_list(ws)}" for ws in lines])
+    both = one = 0
+    notes = []
+    for ws, o in zip(lines, outs):
+        line = " ".join(ws)
+        text = "para text\n" + line + "\n"
+        d = mdast.norm_doc(text)
+        marko_int = not (len(d) == 1 and d[0][0] == "para")
+        toks = mdit.parse(text)
+        top = [t.type for t in toks if t.level == 0 and t.type.endswith("_open") or (t.level == 0 and t.type in ("hr", "fence", "code_block"))]
+        mdit_int = top != ["paragraph_open"]
+        spec = o == "1"
+        ctx.count(["blockstart", line])
+        if spec != marko_int and spec != mdit_int:
+            both += 1
+            notes.append(f"{line!r}: spec={spec} marko={marko_int} markdown-it={mdit_int}")
+        elif spec != marko_int or spec != mdit_int:
+            one += 1
+            if len(notes) < 30:
+                notes.append(f"(readers differ) {line!r}: spec={spec} marko={marko_int} markdown-it={mdit_int}")
+    ctx.extra["blockstart_monitor"] = {"lines": len(lines), "spec_vs_both_readers": both, "readers_disagree": one, "notes": notes[:30]}
+    ctx.obligation(f"monitor P-blk: SPEC interruptsPara agrees with at least one of Marko / markdown-it-py on {len(lines)} continuation lines "
+                   f"({one} lines on which the two readers themselves differ)", "monitor", both == 0, "; ".join(notes[:6]))
+
+
 def replay_findings(ctx: Ctx) -> None:
     for fid, e in ctx.kf.items():
         inp = e.get("input") or {}
@@ -134,6 +175,7 @@ def run(ctx: Ctx) -> None:
         ctx.guard("tie render", rendertie.tie_render, ctx.scale(250, 4000))
         from props import c05
         ctx.guard("tie escape", c05.tie_escape)
+        ctx.guard("monitor P-blk", monitor_blockstart)
     ast_oracle(ctx, rendertie.SPECIAL_DOCS, "special")
     ast_oracle(ctx, gen_docs(ctx, ctx.scale(500, 8000)), "generated-clean")
     ast_oracle(ctx, gen_docs(ctx, ctx.scale(120, 2000), hazards=True, clean=False), "generated-hazards")
